@@ -1,4 +1,402 @@
-import Model.RaggedW
+import Proofs.C06History
+/-!
+# C06 — ragged-array writes keep all views coherent over any operation history
+
+Model: `Ens.RaggedW` (`lean/Model/RaggedW.lean`), `step cfg : State α → Op α → Except Err …` mirrors
+`RaggedArray.__setitem__ / append / map_operator / __invert__ / __init__` of `enspara/ra/ra.py` with
+`_data`, `_array`, `lengths` as separate fields; `cfg` says which of the proposed repairs the tree has
+(`Cfg.asIs` = the unchanged tree, `Cfg.fixed` = all four diffs of `/tmp/fix-proposals`).
+Specification: `specStep` on a plain list of rows.
+
+What is proved, for every element type `α`, every state, every operation, every history:
+
+* `InScope cfg s op` is the region in which the variant `cfg` of the code is claimed to behave like
+  the list of rows.  For the fully repaired variant it contains *every* operation whose own guards
+  hold (`inScope_fixed`); for the unchanged tree it excludes exactly the defect regions listed in
+  `known_findings.d/C06.json`, each witnessed below by a `…_counterexample`.
+* The full statements are kept as `def C06_…_full : Prop`; they are FALSE for `Cfg.asIs`
+  (counterexamples by `decide`) and TRUE for `Cfg.fixed` (`…_fixed` theorems).
+-/
 namespace C06
-theorem placeholder : True := trivial
+open Ens Ens.RaggedW
+variable {α β γ : Type}
+
+/-! ## representation -/
+
+/-- the two stored representations describe the same content iff both are the images of one list of
+rows (`_data` = concatenation, `lengths` = row lengths) -/
+theorem coherent_iff_rows (s : State α) :
+    Coherent s ↔ (s.data = s.array.flatten ∧ s.lengths = s.array.map List.length) := coherent_iff s
+
+example : Coherent (⟨[1, 2, 3], [1, 2], [[1], [2, 3]], false, false⟩ : State Nat) := by decide
+example : ¬ Coherent (⟨[1, 2, 3], [1, 2], [[9], [2, 3]], false, false⟩ : State Nat) := by decide
+
+/-- partitioning the concatenation by the row lengths gives the rows back (`__init__(rows)`) -/
+theorem partition_roundtrip (rows : Rows α) :
+    partition (rows.map List.length) rows.flatten = rows := partition_flatten rows
+
+/-! ## one step -/
+
+/-- **step_refines** (partial: `InScope`).  In scope, a write does to the rows exactly what the
+list-of-rows model does, raises exactly when the model raises (same error kind), and a pure
+operator returns the model's result. -/
+theorem step_refines_partial (cfg : Cfg) (s : State α) (op : Op α) (h : Inv s) (hs : InScope cfg s op) :
+    absR (step cfg s op) = specStep s.array op :=
+  (stepOK_of_inScope cfg h op hs (fun _ _ _ => specTargets_valid)).1
+
+/-- **step_preserves_coherent** (partial: `InScope`, and not the stale row-view write). -/
+theorem step_preserves_coherent_partial (cfg : Cfg) (s s' : State α) (o : Option (State α)) (op : Op α)
+    (h : Inv s) (hs : InScope cfg s op) (hst : ¬ StaleWrite cfg s op)
+    (hstep : step cfg s op = .ok (s', o)) :
+    Coherent s' ∧ s'.array ≠ [] ∧ ∀ b, o = some b → Coherent b :=
+  let ⟨_, hinv⟩ := stepOK_of_inScope cfg h op hs (fun _ _ _ => specTargets_valid)
+  ⟨((hinv s' o hstep).1 hst).1, ((hinv s' o hstep).1 hst).2, fun b hb => ((hinv s' o hstep).2 b hb).1.1⟩
+
+-- non-vacuity: a 2-d slice write in scope on the unchanged tree
+example : InScope Cfg.asIs (⟨[1, 2, 3], [1, 2], [[1], [2, 3]], false, false⟩ : State Nat)
+    (.set2d (.slice ⟨none, none, none⟩) (.slice ⟨some 0, some 1, none⟩) (.scalar 7)) := by decide
+example : Inv (⟨[1, 2, 3], [1, 2], [[1], [2, 3]], false, false⟩ : State Nat) := by decide
+example : absR (step Cfg.asIs (⟨[1, 2, 3], [1, 2], [[1], [2, 3]], false, false⟩ : State Nat)
+    (.set2d (.slice ⟨none, none, none⟩) (.slice ⟨some 0, some 1, none⟩) (.scalar 7)))
+    = .ok ([[7], [7, 3]], none) := by decide
+
+/-! ## the guards that belong to the operations themselves -/
+
+/-- an operand of an element-wise operator has the row structure of the array; a mask has it too;
+a 2-d index has one of the forms of the tuple branch -/
+def Valid (s : State α) : Op α → Prop
+  | .iop2 _ o => o.map List.length = s.lengths
+  | .binop2 _ o => o.map List.length = s.lengths
+  | .setMask mask _ => MaskAgree Cfg.fixed s mask
+  -- `append` starts with `if len(self._data) == 0: self.__init__(values)`: an array whose rows are
+  -- all empty is *replaced* by the appended rows (no repair proposed; outside the grammar)
+  | .append _ _ => s.data ≠ []
+  | .appendFlat _ => s.data ≠ []
+  | _ => True
+
+instance (s : State α) [DecidableEq α] : (op : Op α) → Decidable (Valid s op)
+  | .iop2 _ o => inferInstanceAs (Decidable (o.map List.length = s.lengths))
+  | .binop2 _ o => inferInstanceAs (Decidable (o.map List.length = s.lengths))
+  | .setMask mask _ => inferInstanceAs (Decidable (MaskAgree Cfg.fixed s mask))
+  | .append _ _ => inferInstanceAs (Decidable (s.data ≠ []))
+  | .appendFlat _ => inferInstanceAs (Decidable (s.data ≠ []))
+  | .setElem _ _ _ | .viewWrite _ _ _ | .setRow _ _ | .setRows _ _ _ | .setIntSlice _ _ _
+  | .set2d _ _ _ | .setPaired _ _ _ | .iop _ | .iopAt _ _ _ | .binop _ | .copyCtor _ _ => isTrue trivial
+
+/-- For the fully repaired code every valid operation is in scope. -/
+theorem inScope_fixed (s : State α) (op : Op α) (h : Coherent s) (hv : Valid s op) :
+    InScope Cfg.fixed s op := by
+  cases op with
+  | setElem i j x => trivial
+  | viewWrite i j x => trivial
+  | setRow i v => exact Or.inl rfl
+  | setRows sel vs form => exact Or.inl rfl
+  | setIntSlice i sl v => trivial
+  | set2d r c v => exact ⟨idxAgree_fixed Cfg.fixed rfl h r c, Or.inl rfl⟩
+  | setPaired r c v => exact Or.inl rfl
+  | setMask mask v => exact ⟨hv, Or.inl rfl⟩
+  | append vs form => exact hv
+  | appendFlat v => exact ⟨rfl, hv⟩
+  | iop f => exact Or.inr rfl
+  | iop2 g o => exact ⟨hv, Or.inr rfl⟩
+  | iopAt r c f => exact ⟨idxAgree_fixed Cfg.fixed rfl h r c, Or.inl rfl⟩
+  | binop f => exact Or.inr rfl
+  | binop2 g o => exact ⟨hv, Or.inr rfl⟩
+  | copyCtor viaFlat np => exact Or.inr (Or.inr rfl)
+
+/-- the full statement of *step_refines* for a variant of the code (not asserted in general) -/
+def C06_step_refines_full (cfg : Cfg) : Prop :=
+  ∀ (s : State Int) (op : Op Int), Inv s → Valid s op → absR (step cfg s op) = specStep s.array op
+
+/-- the full statement of *step_preserves_coherent* -/
+def C06_step_preserves_coherent_full (cfg : Cfg) : Prop :=
+  ∀ (s s' : State Int) (o : Option (State Int)) (op : Op Int), Inv s → Valid s op →
+    step cfg s op = .ok (s', o) → Coherent s'
+
+/-- With all four repairs the full statement holds (for every element type). -/
+theorem step_refines_fixed (s : State α) (op : Op α) (h : Inv s) (hv : Valid s op) :
+    absR (step Cfg.fixed s op) = specStep s.array op :=
+  step_refines_partial Cfg.fixed s op h (inScope_fixed s op h.1 hv)
+
+theorem step_preserves_coherent_fixed (s s' : State α) (o : Option (State α)) (op : Op α)
+    (h : Inv s) (hv : Valid s op) (hstep : step Cfg.fixed s op = .ok (s', o)) :
+    Coherent s' ∧ s'.array ≠ [] ∧ ∀ b, o = some b → Coherent b :=
+  step_preserves_coherent_partial Cfg.fixed s s' o op h (inScope_fixed s op h.1 hv)
+    (not_stale_of_fix Cfg.fixed rfl s op) hstep
+
+example : C06_step_refines_full Cfg.fixed := fun s op h hv => step_refines_fixed s op h hv
+
+/-! ### the unchanged tree: one witness per known finding (`known_findings.d/C06.json`) -/
+
+/-- a ragged array `[[1], [2, 3]]` and an equal-length array `[[1, 2], [3, 4]]` as the unchanged
+constructor builds them (2-d object block for equal lengths) -/
+def ragged0 : State Int := ⟨[1, 2, 3], [1, 2], [[1], [2, 3]], false, false⟩
+def block0 : State Int := ⟨[1, 2, 3, 4], [2, 2], [[1, 2], [3, 4]], false, false⟩
+def all_ : PySlice := ⟨none, none, none⟩
+
+example : Inv ragged0 ∧ Inv block0 := by decide
+
+/-- `a[mask] = 7` with an all-false mask: IndexError, the model does nothing -/
+theorem setmask_all_false_counterexample :
+    absR (step Cfg.asIs ragged0 (.setMask [[false], [false, false]] (.scalar 7)))
+      ≠ specStep ragged0.array (.setMask [[false], [false, false]] (.scalar 7)) := by decide
+
+/-- `a[:, 1:] = 7` when a selected row has no column 1: TypeError -/
+theorem set2d_empty_selection_counterexample :
+    absR (step Cfg.asIs ragged0 (.set2d (.slice all_) (.slice ⟨some 1, none, none⟩) (.scalar 7)))
+      ≠ specStep ragged0.array (.set2d (.slice all_) (.slice ⟨some 1, none, none⟩) (.scalar 7)) := by decide
+
+/-- `a[:, -1:] = 7` : writes every cell instead of the last cell of each row -/
+theorem set2d_col_slice_negative_start_counterexample :
+    absR (step Cfg.asIs ragged0 (.set2d (.slice all_) (.slice ⟨some (-1), none, none⟩) (.scalar 7)))
+      = .ok ([[7], [7, 7]], none) ∧
+    specStep ragged0.array (.set2d (.slice all_) (.slice ⟨some (-1), none, none⟩) (.scalar 7))
+      = .ok ([[7], [2, 7]], none) := by decide
+
+/-- `a[:, ::-1] = 7` : TypeError (every selection comes up empty) -/
+theorem set2d_col_slice_negative_step_counterexample :
+    absR (step Cfg.asIs ragged0 (.set2d (.slice all_) (.slice ⟨none, none, some (-1)⟩) (.scalar 7)))
+      ≠ specStep ragged0.array (.set2d (.slice all_) (.slice ⟨none, none, some (-1)⟩) (.scalar 7)) := by decide
+
+/-- `a[::-1, 0] = 7` : ValueError (no row selected) -/
+theorem set2d_row_slice_negative_step_counterexample :
+    absR (step Cfg.asIs ragged0 (.set2d (.slice ⟨none, none, some (-1)⟩) (.int 0) (.scalar 7)))
+      ≠ specStep ragged0.array (.set2d (.slice ⟨none, none, some (-1)⟩) (.int 0) (.scalar 7)) := by decide
+
+/-- `a[:5, 0] = 7` on two rows: IndexError (the stop is not clipped) -/
+theorem set2d_row_slice_out_of_range_counterexample :
+    absR (step Cfg.asIs ragged0 (.set2d (.slice ⟨none, some 5, none⟩) (.int 0) (.scalar 7)))
+      ≠ specStep ragged0.array (.set2d (.slice ⟨none, some 5, none⟩) (.int 0) (.scalar 7)) := by decide
+
+/-- `a[0] = [7, 8, 9]` on an equal-length array: ValueError; `a[0] = [7]` fills the row with 7 -/
+theorem setrow_rectangular_resize_counterexample :
+    absR (step Cfg.asIs block0 (.setRow 0 [7, 8, 9])) = .error .valueError ∧
+    specStep block0.array (.setRow 0 [7, 8, 9]) = .ok ([[7, 8, 9], [3, 4]], none) ∧
+    absR (step Cfg.asIs block0 (.setRow 0 [7])) = .ok ([[7, 7], [3, 4]], none) ∧
+    specStep block0.array (.setRow 0 [7]) = .ok ([[7], [3, 4]], none) :=
+  ⟨by decide, by decide, by decide, by decide⟩
+
+/-- `a[0:2] = RaggedArray([[5, 6, 1], [7, 8]])` (two rows, unequal) on a 2 x 2 array: the two row
+OBJECTS are broadcast into the cells -/
+theorem setrows_rectangular_counterexample :
+    absR (step Cfg.asIs block0 (.setRows (.slice all_) [[5, 6, 1], [7, 8]] .ra)) = .error .garbled ∧
+    specStep block0.array (.setRows (.slice all_) [[5, 6, 1], [7, 8]] .ra)
+      = .ok ([[5, 6, 1], [7, 8]], none) := ⟨by decide, by decide⟩
+
+/-- `a.append([5, 6])` : ValueError -/
+theorem append_flat_row_counterexample :
+    absR (step Cfg.asIs ragged0 (.appendFlat [5, 6])) ≠ specStep ragged0.array (.appendFlat [5, 6]) := by decide
+
+/-- `row = a[0]; row[0] = 9` on an equal-length array: `_array` changes, `_data` does not -/
+theorem viewwrite_rectangular_counterexample :
+    ∃ s', step Cfg.asIs block0 (.viewWrite 0 0 9) = .ok (s', none) ∧ ¬ Coherent s' ∧
+      obsRow s' 0 = .ok [9, 2] ∧ obsElem s' 0 0 = .ok 1 :=
+  ⟨⟨[1, 2, 3, 4], [2, 2], [[9, 2], [3, 4]], false, false⟩, by decide, by decide, by decide, by decide⟩
+
+/-- a row write on an equal-length array turns `_data` into an object array (public `.dtype`) -/
+theorem rowwrite_object_dtype_counterexample :
+    ∃ s', step Cfg.asIs block0 (.setRow 0 [7, 8]) = .ok (s', none) ∧ s'.objDtype = true :=
+  ⟨⟨[7, 8, 3, 4], [2, 2], [[7, 8], [3, 4]], false, true⟩, by decide, rfl⟩
+
+/-- **step_refines is false on the unchanged tree** -/
+theorem step_refines_counterexample : ¬ C06_step_refines_full Cfg.asIs := by
+  intro h
+  have := h ragged0 (.appendFlat [5, 6]) (by decide) (by decide)
+  exact append_flat_row_counterexample this
+
+/-- **step_preserves_coherent is false on the unchanged tree** -/
+theorem step_preserves_coherent_counterexample : ¬ C06_step_preserves_coherent_full Cfg.asIs := by
+  intro h
+  have := h block0 ⟨[1, 2, 3, 4], [2, 2], [[9, 2], [3, 4]], false, false⟩ none (.viewWrite 0 0 9)
+    (by decide) trivial (by decide)
+  revert this
+  decide
+
+/-! ## histories -/
+
+/-- **history_refines** (partial): after ANY finite history whose operations are in scope, the rows of
+the object are the rows of the list-of-rows model after the same history, and the two stored
+representations are coherent — hence (`observers_agree`) every observer agrees with the model. -/
+theorem history_refines_partial (cfg : Cfg) (s : State α) (ops : List (Op α)) (h : Inv s)
+    (hall : AllInScope cfg s ops) :
+    (run cfg s ops).array = specRun s.array ops ∧ Coherent (run cfg s ops) :=
+  let ⟨h1, h2⟩ := run_refines cfg ops s h hall
+  ⟨h1, h2.1⟩
+
+/-- every operation of the history satisfies its own guards at the state it is applied to -/
+def AllValid : State α → List (Op α) → Prop
+  | _, [] => True
+  | s, op :: ops => Valid s op ∧
+      (match step Cfg.fixed s op with
+        | .ok (s', _) => AllValid s' ops
+        | .error _ => AllValid s ops)
+
+theorem allInScope_fixed (ops : List (Op α)) : ∀ (s : State α), Inv s → AllValid s ops →
+    AllInScope Cfg.fixed s ops := by
+  induction ops with
+  | nil => intro _ _ _; trivial
+  | cons op ops ih =>
+    intro s h hv
+    obtain ⟨hv1, hv2⟩ := hv
+    have hin := inScope_fixed s op h.1 hv1
+    have hst := not_stale_of_fix Cfg.fixed rfl s op
+    refine ⟨hin, hst, ?_⟩
+    cases hs : step Cfg.fixed s op with
+    | error e =>
+      rw [hs] at hv2
+      exact ih s h hv2
+    | ok res =>
+      obtain ⟨s', o⟩ := res
+      rw [hs] at hv2
+      have := (stepOK_of_inScope Cfg.fixed h op hin (fun _ _ _ => specTargets_valid)).2 s' o hs
+      exact ih s' (this.1 hst) hv2
+
+/-- **history_refines** at full strength for the repaired code: any finite history of valid
+operations, starting from any coherent non-empty array. -/
+theorem history_refines_fixed (s : State α) (ops : List (Op α)) (h : Inv s) (hv : AllValid s ops) :
+    (run Cfg.fixed s ops).array = specRun s.array ops ∧ Coherent (run Cfg.fixed s ops) :=
+  history_refines_partial Cfg.fixed s ops h (allInScope_fixed ops s h hv)
+
+def decAllInScope [DecidableEq α] (cfg : Cfg) :
+    (ops : List (Op α)) → (s : State α) → Decidable (AllInScope cfg s ops)
+  | [], _ => isTrue trivial
+  | op :: ops, s =>
+    match hs : step cfg s op with
+    | .ok (s', o) =>
+      have := decAllInScope cfg ops s'
+      decidable_of_iff (InScope cfg s op ∧ ¬ StaleWrite cfg s op ∧ AllInScope cfg s' ops)
+        (by simp only [AllInScope, hs])
+    | .error e =>
+      have := decAllInScope cfg ops s
+      decidable_of_iff (InScope cfg s op ∧ ¬ StaleWrite cfg s op ∧ AllInScope cfg s ops)
+        (by simp only [AllInScope, hs])
+
+instance [DecidableEq α] (cfg : Cfg) (ops : List (Op α)) (s : State α) :
+    Decidable (AllInScope cfg s ops) := decAllInScope cfg ops s
+
+-- non-vacuity: a three-step history on the unchanged tree, in scope at every step
+example : AllInScope Cfg.asIs ragged0
+    [.setElem 1 (-1) 9, .set2d (.slice all_) (.int 0) (.flat [5, 6]), .append [[4, 4]] .listarr] := by decide
+example : (run Cfg.asIs ragged0
+    [.setElem 1 (-1) 9, .set2d (.slice all_) (.int 0) (.flat [5, 6]), .append [[4, 4]] .listarr]).array
+    = [[5], [6, 9], [4, 4]] := by decide
+
+/-- **observers_agree**: on a coherent state every way of looking at the object shows the rows:
+`a[i]`, `a[i, j]` (incl. negative indices and IndexError), iteration, `flatten()/_data`, `lengths`,
+`starts`, `len`, `size`, and every reduction (`all/any/max/min` are folds over `_data`). -/
+theorem observers_agree (s : State α) (h : Coherent s) :
+    (∀ i, obsRow s i = specRow s.array i) ∧
+    (∀ i j, obsElem s i j = specElem s.array i j) ∧
+    obsIter s = s.array ∧
+    obsFlat s = s.array.flatten ∧
+    obsLengths s = s.array.map List.length ∧
+    (∀ r, r < s.array.length → (obsStarts s)[r]? = some ((s.array.take r).map List.length).sum) ∧
+    obsLen s = s.array.length ∧
+    obsSize s = (s.array.map List.length).sum ∧
+    (∀ (β : Type) (f : β → α → β) (init : β), obsReduce s f init = s.array.flatten.foldl f init) :=
+  ⟨fun i => obsRow_eq s i, fun i j => obsElem_eq h i j, obsIter_eq s, obsFlat_eq h, obsLengths_eq h,
+   fun r hr => obsStarts_eq h r hr, obsLen_eq s, obsSize_eq h, fun _ f init => obsReduce_eq h f init⟩
+
+example : obsElem ragged0 1 (-1) = .ok 3 ∧ obsElem ragged0 0 1 = .error .indexError := by decide
+
+/-- history + observers: after any in-scope history every observer of the object equals the
+observer of the list-of-rows model after the same history -/
+theorem history_observers_partial (cfg : Cfg) (s : State α) (ops : List (Op α)) (h : Inv s)
+    (hall : AllInScope cfg s ops) :
+    let s' := run cfg s ops
+    let rows' := specRun s.array ops
+    (∀ i, obsRow s' i = specRow rows' i) ∧ (∀ i j, obsElem s' i j = specElem rows' i j) ∧
+    obsIter s' = rows' ∧ obsFlat s' = rows'.flatten ∧ obsLengths s' = rows'.map List.length ∧
+    obsLen s' = rows'.length ∧
+    (∀ (β : Type) (f : β → α → β) (init : β), obsReduce s' f init = rows'.flatten.foldl f init) := by
+  obtain ⟨h1, h2⟩ := history_refines_partial cfg s ops h hall
+  have ho := observers_agree (run cfg s ops) h2
+  simp only
+  rw [← h1]
+  exact ⟨ho.1, ho.2.1, ho.2.2.1, ho.2.2.2.1, ho.2.2.2.2.1, ho.2.2.2.2.2.2.1, ho.2.2.2.2.2.2.2.2⟩
+
+/-! ## operators -/
+
+/-- **operators_pure**: `b = a ⊕ scalar`, `b = ~a`, `b = a < c` (any element function `f`, any result
+type): a new value with the same lengths whose flat data and rows are the element-wise images; `a`
+itself is not part of the result (the functional model returns it unchanged, see `step`). -/
+theorem operators_pure (cfg : Cfg) (s : State α) (f : α → β) (h : Inv s)
+    (hd : s.data ≠ [] ∨ cfg.readsFix = true) :
+    ∃ b, mapOp cfg f s = .ok b ∧ b.lengths = s.lengths ∧ b.data = s.data.map f ∧
+      b.array = s.array.map (List.map f) ∧ Coherent b :=
+  let ⟨b, h1, h2, h3, h4, h5⟩ := mapOp_spec cfg h f hd
+  ⟨b, h1, h4, h5, h2, h3.1⟩
+
+/-- the same between two ragged arrays of equal row structure -/
+theorem operators_pure2 (cfg : Cfg) (s : State α) (g : α → β → γ) (o : Rows β) (h : Inv s)
+    (ho : o.map List.length = s.lengths) (hd : s.data ≠ [] ∨ cfg.readsFix = true) :
+    ∃ b, zipOp cfg g s o.flatten = .ok b ∧ b.lengths = s.lengths ∧
+      b.data = List.zipWith g s.data o.flatten ∧
+      b.array = List.zipWith (List.zipWith g) s.array o ∧ Coherent b :=
+  let ⟨b, h1, h2, h3, h4, h5⟩ := zipOp_spec cfg h g o ho hd
+  ⟨b, h1, h4, h5, h2, h3.1⟩
+
+/-- in `step`, a pure operator leaves the object as it is and returns the element-wise result -/
+theorem operators_pure_step (cfg : Cfg) (s s' : State α) (o : Option (State α)) (f : α → α)
+    (h : Inv s) (hstep : step cfg s (.binop f) = .ok (s', o)) :
+    s' = s ∧ ∃ b, o = some b ∧ b.data = s.data.map f ∧ b.lengths = s.lengths := by
+  simp only [step] at hstep
+  cases hm : mapOp cfg f s with
+  | error e => simp [hm] at hstep
+  | ok b =>
+    simp only [hm] at hstep
+    injection hstep with hstep
+    injection hstep with e1 e2
+    subst e1 e2
+    refine ⟨rfl, b, rfl, ?_⟩
+    unfold mapOp at hm
+    have hsum : s.lengths.sum = (s.data.map f).length := by simp [h.1.1]
+    by_cases hd : s.data ≠ [] ∨ cfg.readsFix = true
+    · have hd' : s.data.map f ≠ [] ∨ cfg.readsFix = true := by
+        rcases hd with hd | hd
+        · left; simpa using hd
+        · right; exact hd
+      rw [initFlat_eq cfg _ _ _ _ h.lengths_ne hsum hd'] at hm
+      injection hm with hm
+      subst hm
+      exact ⟨rfl, rfl⟩
+    · exfalso
+      have hd1 : s.data = [] := by
+        cases hs : s.data with
+        | nil => rfl
+        | cons x xs => exact absurd (Or.inl (by simp [hs])) hd
+      have hd2 : cfg.readsFix = false := by
+        cases hr : cfg.readsFix with
+        | false => rfl
+        | true => exact absurd (Or.inr hr) hd
+      simp [initFlat, hd1, hd2] at hm
+
+example : ∃ b, step Cfg.asIs ragged0 (.binop (· + 10)) = .ok (ragged0, some b) ∧
+    b.array = [[11], [12, 13]] := ⟨⟨[11, 12, 13], [1, 2], [[11], [12, 13]], true, false⟩, by decide, rfl⟩
+
+/-- **iop_elementwise**: `a ⊕= scalar` / `a ⊕= RaggedArray` rebinds `a` to the element-wise result
+(`ra.py` has no `__iadd__`: Python evaluates `a = a.__add__(b)`). -/
+theorem iop_elementwise (cfg : Cfg) (s : State α) (f : α → α) (h : Inv s)
+    (hd : s.data ≠ [] ∨ cfg.readsFix = true) :
+    ∃ s', step cfg s (.iop f) = .ok (s', none) ∧ s'.array = s.array.map (List.map f) ∧
+      s'.lengths = s.lengths ∧ Coherent s' := by
+  obtain ⟨b, h1, h2, h3, h4, _⟩ := mapOp_spec cfg h f hd
+  exact ⟨b, by simp only [step, h1], h2, h4, h3.1⟩
+
+theorem iop2_elementwise (cfg : Cfg) (s : State α) (g : α → α → α) (o : Rows α) (h : Inv s)
+    (ho : o.map List.length = s.lengths) (hd : s.data ≠ [] ∨ cfg.readsFix = true) :
+    ∃ s', step cfg s (.iop2 g o) = .ok (s', none) ∧
+      s'.array = List.zipWith (List.zipWith g) s.array o ∧ s'.lengths = s.lengths ∧ Coherent s' := by
+  obtain ⟨b, h1, h2, h3, h4, _⟩ := zipOp_spec cfg h g o ho hd
+  exact ⟨b, by simp only [step, h1], h2, h4, h3.1⟩
+
+/-- `a[r, c] ⊕= scalar`: in scope, exactly the addressed cells are mapped (gather, map, scatter) -/
+theorem iopAt_elementwise (cfg : Cfg) (s : State α) (r : Sel) (c : CSel) (f : α → α) (h : Inv s)
+    (hs : InScope cfg s (.iopAt r c f)) :
+    absR (step cfg s (.iopAt r c f)) = specStep s.array (.iopAt r c f) :=
+  step_refines_partial cfg s _ h hs
+
+example : absR (step Cfg.asIs ragged0 (.iopAt (.slice all_) (.slice ⟨none, some 1, none⟩) (· + 2)))
+    = .ok ([[3], [4, 3]], none) := by decide
+
 end C06
